@@ -86,8 +86,9 @@ mod verif_mft_w {
         v
     }
     fn show(v: &[u8]) -> String { String::from_utf8_lossy(v).escape_default().to_string() }
+    fn hex(v: &[u8]) -> String { v.iter().map(|b| format!("{:02x}", b)).collect() }
 
-    //@harness mft_w_name W fn=FileAndHash::validate_file_name n=60000 timeout=600
+    //@harness mft_w_name W fn=FileAndHash::validate_file_name n=100000 timeout=600
     verif_search!{ mft_w_name; |a: u64, b: u64| {
         let name = gen_name(mix(a) ^ mix(b).rotate_left(21));
         let got = FileAndHash::<Bytes, Bytes>::validate_file_name(&name).is_ok();
@@ -152,7 +153,7 @@ mod verif_mft_w {
         v
     }
 
-    //@harness mft_w_hash W fn=ManifestHash::{new,verify,as_slice},DigestAlgorithm::digest n=30000 timeout=600
+    //@harness mft_w_hash W fn=ManifestHash::{new,verify},DigestAlgorithm::digest n=50000 timeout=600
     verif_search!{ mft_w_hash; |a: u64, b: u64, dl: u8, mode: u8, k: u8, idx: u8, bit: u8, other: u8| {
         let r = mix(a) ^ mix(b).rotate_left(21);
         let data = blob(r, (dl as usize) % 131);
@@ -161,12 +162,12 @@ mod verif_mft_w {
         let h = ManifestHash::new(Bytes::from(listed.clone()), DigestAlgorithm::sha256());
         // hash clause: verifies exactly when the listed hash equals the SHA-256 of the data
         let want = listed == sha256(&data);
-        assert!(h.verify(&data).is_ok() == want, "a listed hash verifies exactly when it equals the SHA-256 of the data: listed={:02x?} data={:02x?} want={}", listed, data, want);
+        assert!(h.verify(&data).is_ok() == want, "a listed hash verifies exactly when it equals the SHA-256 of the data: expected ok={} listed={} data={}", want, hex(&listed), hex(&data));
         // the same listed hash against other (related) data
         let mut d2 = data.clone();
         match other % 4 { 0 => { d2.pop(); } 1 => d2.push(0), 2 => d2.clear(), _ => if let Some(x) = d2.first_mut() { *x ^= 0x80 } }
         let want2 = listed == sha256(&d2);
-        assert!(h.verify(&d2).is_ok() == want2, "a listed hash verifies exactly when it equals the SHA-256 of the data (other data): listed={:02x?} data={:02x?} want={}", listed, d2, want2);
+        assert!(h.verify(&d2).is_ok() == want2, "a listed hash verifies exactly when it equals the SHA-256 of the data (other data): expected ok={} listed={} data={}", want2, hex(&listed), hex(&d2));
     }}
 
     const BASES: &[&[u8]] = &[
@@ -201,15 +202,14 @@ mod verif_mft_w {
             assert!(!text[dir.len()..].contains(&b'/'), "decoded manifest: URI has no further '/' below the base directory: uri={} ({})", show(text), ctx);
             assert!(u.parent().map(|p| p.as_slice() == &dir[..]).unwrap_or(false), "decoded manifest: parent of the URI is the base directory: uri={} ({})", show(text), ctx);
             // the listed hash verifies exactly when it equals the SHA-256 of the data
-            assert!(h.as_slice() == &hashes[i][..], "decoded manifest: ManifestHash carries the listed hash ({})", ctx);
             let want = hashes[i] == sha256(&datas[i]);
-            assert!(h.verify(&datas[i]).is_ok() == want, "decoded manifest: listed hash verifies exactly when it equals the SHA-256 of the data: listed={:02x?} data={:02x?} want={}", hashes[i], datas[i], want);
+            assert!(h.verify(&datas[i]).is_ok() == want, "decoded manifest: listed hash verifies exactly when it equals the SHA-256 of the data: expected ok={} listed={} data={}", want, hex(&hashes[i]), hex(&datas[i]));
         }
         // stale exactly when next-update has passed (only times decades away from any plausible clock are used)
         assert!(m.is_stale() == (next_secs < 1_767_225_600), "decoded manifest: stale exactly when nextUpdate lies in the past: nextUpdate={}", next_secs);
     }
 
-    //@harness mft_w_decode W fn=ManifestContent::{new,encode_ref,take_from,iter,iter_uris,len,this_update,next_update,is_stale},Manifest::{decode,content},FileAndHash::{skip_opt_in,take_opt_from,validate_file_name,encode_ref},FileListIter::next,ManifestHash::{new,verify} n=20000 timeout=900
+    //@harness mft_w_decode W fn=ManifestContent::{new,encode_ref,take_from,iter,iter_uris,len,this_update,next_update,is_stale},Manifest::{decode,content},FileAndHash::{skip_opt_in,take_opt_from,validate_file_name,encode_ref},FileListIter::next,ManifestHash::{new,verify} n=40000 timeout=900
     verif_search!{ mft_w_decode; |a: u64, b: u64, c: u64, k: u8, epoch: u8, off: u32, d: u32, after: bool, basesel: u8| {
         let r = mix(a) ^ mix(b).rotate_left(21) ^ mix(c).rotate_left(42);
         // 0..=4 entries; hash lengths of any size, usually the digest of the entry's data or a damaged one
